@@ -104,7 +104,8 @@ void ServiceGenerator::GenerateVfuncs(google::protobuf::io::Printer* printer)
 		 "  ProtobufCService base;\n");
   for (int i = 0; i < descriptor_->method_count(); i++) {
     const google::protobuf::MethodDescriptor* method = descriptor_->method(i);
-    std::string lcname = CamelToLower(method->name());
+    /* the member must not be a keyword (rpc Delete, rpc New, ...) */
+    std::string lcname = EscapeKeyword(CamelToLower(method->name()));
     vars_["method"] = lcname;
     vars_["metpad"] = ConvertToSpaces(lcname);
     vars_["input_typename"] = FullNameToC(method->input_type()->full_name(), method->input_type()->file());
